@@ -95,6 +95,20 @@ class World(object):
     self.step_budget = 200      # x 100000 SQLite VM steps per statement
     self.retain_connections = False
     self.busy_done = set()
+    self.lock_left = 0
+    self.lock_fault = None
+    self.slept = 0.0
+
+  def unlock(self):
+    """The other client ends its transaction."""
+    if self.locker is not None:
+      try:
+        self.locker.execute('ROLLBACK')
+      except sqlite3.Error:
+        pass
+      self.locker.close()
+      self.locker = None
+    self.lock_fault = None
     self.retained = []
 
   def release(self):
@@ -197,13 +211,19 @@ class Proxy(object):
         f = x
         w.busy_done.add(id(x))
         break
-    if f and f.get('file') and os.path.exists(f['file']):
+    if f and f.get('file') and os.path.exists(f['file']) and w.locker is None:
       w.locker = sqlite3.connect(f['file'], timeout=0, isolation_level=None)
       try:
         w.locker.execute('BEGIN IMMEDIATE')
+        # the other client keeps its transaction open for `hold` statements of this run
+        w.lock_left = f.get('hold', 1)
       except sqlite3.OperationalError:
         w.locker.close()
         w.locker = None
+    elif w.locker is not None:
+      f = w.lock_fault
+    if f is not None and w.locker is not None:
+      w.lock_fault = f
     f2 = w.fault_at('interrupt', k)
     if f2:
       budget = [f2.get('steps', 1)]
@@ -272,12 +292,9 @@ class Proxy(object):
       if f2 or w.step_budget:
         self.c.set_progress_handler(None, 1)
       if w.locker is not None:
-        try:
-          w.locker.execute('ROLLBACK')
-        except sqlite3.Error:
-          pass
-        w.locker.close()
-        w.locker = None
+        w.lock_left -= 1
+        if w.lock_left <= 0:
+          w.unlock()
     # disk-full fault: clamp the attached database once it is attached
     ff = [x for x in w.faults if x['kind'] == 'full']
     if ff and not w.full_applied and st.attaches:
@@ -416,11 +433,23 @@ class Installed(object):
       self.proxies.append(p)
       return p
     self.mod.SqliteConnect = factory
+    # no real waiting anywhere: a pause the system takes (a retry loop, say) only advances the
+    # run's simulated clock
+    import time as _time
+    self.real_sleep = _time.sleep
+    world = self.world
+
+    def sleep(seconds):
+      world.slept += max(0.0, float(seconds))
+    _time.sleep = sleep
     return self
 
   def __exit__(self, *a):
     self.mod.SqliteConnect = self.orig
     CURRENT_WORLD[0] = self.prev_world
+    import time as _time
+    _time.sleep = self.real_sleep
+    self.world.unlock()      # the other client does not outlive the run it disturbs
     exc = a[1] if a else None
     if exc is not None:
       if self.world.retain_connections:
